@@ -65,7 +65,8 @@ def cases(draw):
         tasks.append({'pilot': bound, 'state': state, 'named': named})
     events = draw(st.lists(
         st.tuples(st.integers(0, n_p - 1),
-                  st.sampled_from(['step', 'step', 'DONE', 'FAILED', 'CANCELED'])),
+                  st.sampled_from(['step', 'step', 'DONE', 'FAILED', 'CANCELED']),
+                  st.booleans()),      # full pilot document (as advance publishes finals) or short form
         min_size=1, max_size=10))
     return {'kind': 'pilots', 'n_pilots': n_p, 'tasks': tasks,
             'events': [list(e) for e in events]}
@@ -130,7 +131,9 @@ def run_case(case):
     has_final   = any(t['state'] in rps.FINAL for t in case['tasks'])
     n_ends = 0
 
-    for idx, ev in case['events']:
+    for event in case['events']:
+        idx, ev = event[0], event[1]
+        full = bool(event[2]) if len(event) > 2 else False
         p = pilots[idx % n_p]
         if p.uid in ended:
             continue            # the pilot manager never updates a final pilot again
@@ -147,7 +150,15 @@ def run_case(case):
         before = [(t.state, t.exception, t.exception_detail) for t in tasks]
         try:
             for tgt in tgts:
-                p._update({'uid': p.uid, 'type': 'pilot', 'state': tgt})
+                if full:
+                    # the whole pilot document, as the launcher / agent publish it with final
+                    # states ('resources' is None until the pilot was prepared for launch)
+                    doc = dict(p.as_dict(), state=tgt)
+                    if p.state not in (rps.NEW, rps.PMGR_LAUNCHING_PENDING) and not doc.get('resources'):
+                        doc['resources'] = {'cpu': 4, 'gpu': 0}
+                    p._update(doc)
+                else:
+                    p._update({'uid': p.uid, 'type': 'pilot', 'state': tgt})
         except Exception as e:              # noqa
             from .runner import exc_sig
             res.fail(exc_sig('pilot_update_raised', e), repr(e))
@@ -188,4 +199,6 @@ def run_case(case):
         res.label('multi_end')
     res.key = {'t': [(t['pilot'], t['state']) for t in case['tasks']],
                'e': case['events'], 'n': n_p}
+    if any(len(e) > 2 and e[2] for e in case['events']):
+        res.label('full_pilot_document')
     return res
